@@ -12,6 +12,7 @@ import numpy as np
 
 from vlib import common
 from harness import screens as S
+from harness import c01c14_common as G
 
 common.use_repo_sources()
 
@@ -114,7 +115,13 @@ def ste_close(a, b):
         return a == b
     if len(a) != len(b):
         return False
-    return all(len(x) == len(y) and all(abs(p - q) <= 1e-9 * max(1.0, abs(p), abs(q)) for p, q in zip(x, y)) for x, y in zip(a, b))
+    def close(p, q):
+        if p != p or q != q:
+            return p != p and q != q            # NaN observations (load-path class): NaN where the reference is NaN
+        if p in (float("inf"), float("-inf")) or q in (float("inf"), float("-inf")):
+            return p == q
+        return abs(p - q) <= 1e-9 * max(1.0, abs(p), abs(q))
+    return all(len(x) == len(y) and all(close(p, q) for p, q in zip(x, y)) for x, y in zip(a, b))
 
 
 def soft(res, where, case, impl, ref):
@@ -226,6 +233,18 @@ def build_parent(raw):
     s = S.build(raw)
     for a, b in raw.get("merges") or []:
         s.get_plate(int(a)).merge(s.get_plate(int(b)))
+    if raw.get("via_h5"):
+        # item 19, load path: the parent is what Screen.load_h5 returns for the saved rows (under DEBUG logging for the verbose slice)
+        import shutil
+        import tempfile
+        from batchie.data import Screen
+        d = tempfile.mkdtemp(prefix="c14_")
+        try:
+            s.save_h5(d + "/p.h5")
+            with G.vctx(raw.get("via_h5") == "verbose"):
+                s = Screen.load_h5(d + "/p.h5")
+        finally:
+            shutil.rmtree(d, ignore_errors=True)
     return s
 
 
@@ -275,6 +294,10 @@ class Eval:
         self.parent["observations"] = [S.bits(x) for x in s.observations]
         self.parent["plate_names"] = [str(x) for x in s.plate_names]
         self.n = n
+        if raw.get("via_h5"):
+            saved = [S.bits(x) for x in raw["obs"]]
+            if self.parent["observations"] != saved or self.parent["observation_mask"] != [bool(b) for b in raw["mask"]]:
+                self.soft("load:observations-rewritten", self.parent["observations"][:12], saved[:12])      # persistence of the rows is C02's
         if raw.get("merges"):
             order = sorted(set(self.parent["plate_names"]))
             if self.parent["plate_ids"] != [order.index(x) for x in self.parent["plate_names"]]:
@@ -618,8 +641,12 @@ def unique_direct(ctx, res, rng, queue):
             arrs = [block[:, j] for j in range(len(cols))]
         else:
             arrs = [np.array(c, dtype=int) for c in cols]
+        if t % 6 == 0:
+            case["verbose"] = True
+            res.count("class.verbose-logging")
         try:
-            got = [bool(b) for b in select_unique_zipped_numpy_arrays(arrs)]
+            with G.vctx(case.get("verbose")):
+                got = [bool(b) for b in select_unique_zipped_numpy_arrays(arrs)]
             out = "ok " + S.sel_tok(got)
         except Exception as e:      # noqa: BLE001
             got = None
@@ -992,7 +1019,11 @@ def int_width_case(res, case, queue=None):
 def guarded(f, res, case, *a):
     """an exception escaping from a view operation on a valid screen with valid masks is a violation (the view the text demands is not produced)"""
     try:
-        f(res, case, *a)
+        if case.get("kind") == "entry-point":
+            f(res, case, *a)                # enters the verbose configuration itself (the CLI also needs --verbose)
+        else:
+            with G.vctx(case.get("verbose")):
+                f(res, case, *a)
     except Exception as e:      # noqa: BLE001
         res.fail("a view operation on a valid screen with valid masks raises", case, "%s: %s" % (type(e).__name__, e), "a view",
                  signature="C14:raises:" + case["kind"])
@@ -1007,23 +1038,146 @@ def checklist_classes(ctx, res, rng, queue):
         if len(set(raw["pnames"])) >= 2 and rng.random() < 0.3:
             raw["merges"] = gen_merges(rng, raw)
         n = len(raw["snames"])
-        case = {"kind": "temporaries", "raw": raw, "masks": equal_size_masks(rng, n, 5)}
+        case = {"kind": "temporaries", "raw": raw, "masks": equal_size_masks(rng, n, 5), "verbose": t % 3 == 0}
+        if case["verbose"]:
+            res.count("class.verbose-logging")
         res.evaluations += 1
         res.count("class.temporaries")
         guarded(temporaries_case, res, case)
         m1 = gen_mask(rng, n)
-        case = {"kind": "instalments", "raw": raw, "m1": m1, "m2": gen_mask(rng, sum(m1)), "ms": [gen_mask(rng, n) for _ in range(3)]}
+        case = {"kind": "instalments", "raw": raw, "m1": m1, "m2": gen_mask(rng, sum(m1)), "ms": [gen_mask(rng, n) for _ in range(3)], "verbose": t % 3 == 1}
+        if case["verbose"]:
+            res.count("class.verbose-logging")
         res.evaluations += 1
         res.count("class.instalments")
         guarded(instalments_case, res, case)
     sizes = [127, 128, 255, 256, 257]
     picks = sizes if not (ctx.tier == "quick" and ctx.mode != "search") else [257, rng.choice([127, 128, 255, 256])]     # 257 plates: ids 0..256 cross every boundary
     for m in picks:
-        case = {"kind": "int-width", "raw": wide_parent(rng, m)}
+        case = {"kind": "int-width", "raw": wide_parent(rng, m), "verbose": m != 257}
+        if case["verbose"]:
+            res.count("class.verbose-logging")
         res.evaluations += 1
         res.count("class.int-width")
         res.count("class.int-width.%d" % m)
         guarded(int_width_case, res, case, queue)
+
+
+
+# ---------------------------------------------------------------- HARDENING_CHECKLIST items 18 (real entry points) and 19 (verbose logging, load paths)
+
+def row_tuples(s):
+    return list(zip([tuple(r) for r in np.asarray(s.treatment_names).tolist()], [tuple(S.bits(x) for x in r) for r in np.asarray(s.treatment_doses)],
+                    [str(x) for x in s.sample_names], [str(x) for x in s.plate_names], [S.bits(x) for x in s.observations]))
+
+
+def entry_point_case(res, case):
+    """the stages that take plate views / subsets of a loaded screen, through their real `batchie.cli.<stage>.main()`"""
+    import shutil
+    import tempfile
+    from batchie.data import Screen
+    raw, stage, verbose = case["raw"], case["stage"], bool(case.get("verbose"))
+    tmpdir = tempfile.mkdtemp(prefix="c14_")
+    try:
+        src = tmpdir + "/in.h5"
+        inp = S.build(raw)
+        inp.save_h5(src)
+        plates = sorted(set(raw["pnames"]))
+        status = {q: bool(raw["mask"][raw["pnames"].index(q)]) for q in plates}
+        if stage == "extract_screen_metadata":
+            out = tmpdir + "/meta.json"
+            with G.recording(stage, "Screen") as calls:
+                G.run_main(stage, ["--screen", src, "--output", out], verbose)
+            for _, loaded in calls:      # the plate views the stage iterates over partition the loaded screen by plate id
+                cover = [0] * len(raw["snames"])
+                for p_ in loaded.plates:
+                    for i, b in enumerate(p_.selection_vector):
+                        cover[i] += bool(b)
+                if any(c != 1 for c in cover):
+                    res.fail("plates of the screen the stage loaded do not partition its experiments", case, cover, "every row in exactly one plate")
+            meta = G.read_json(out)
+            want = {"n_plates": len(plates), "n_observed_plates": sum(status.values()), "n_unobserved_plates": len(plates) - sum(status.values())}
+            got = {k: meta.get(k) for k in want}
+            if got != want:
+                res.fail("extract_screen_metadata: the written plate counts are not the numbers of plate views / of plate views that are observed and unobserved",
+                         case, got, want, signature="C14:entry-point:extract_screen_metadata")
+        elif stage == "reveal_plate":
+            out = tmpdir + "/revealed.h5"
+            with G.recording(stage, "reveal_plates") as calls:
+                G.run_main(stage, ["--screen", src, "--output", out, "--plate-id"] + list(case["plate_ids"]), verbose)
+            got_ids = [sorted(int(x) for x in (c[0][1] if len(c[0]) > 1 else c[1].get("plate_ids"))) for c in calls]
+            if got_ids != [sorted(case["plate_ids"])]:
+                res.fail("reveal_plate: the plate ids handed to reveal_plates are not those of the command line (plate id 0 included)", case,
+                         got_ids, sorted(case["plate_ids"]), signature="C14:entry-point:reveal_plate:ids")
+            t = Screen.load_h5(out)
+            if row_tuples(t) != row_tuples(inp):
+                res.fail("reveal_plate: the rows of the written screen are not the rows of the given screen in the same order", case,
+                         row_tuples(t)[:3], row_tuples(inp)[:3], signature="C14:entry-point:reveal_plate:rows")
+            want_mask = [bool(m) or (plates.index(q) in case["plate_ids"]) for m, q in zip(raw["mask"], raw["pnames"])]
+            if [bool(b) for b in t.observation_mask] != want_mask:
+                res.fail("reveal_plate: the observed rows of the written screen are not the previously observed rows plus the rows of the plate views "
+                         "with the given ids", case, [bool(b) for b in t.observation_mask], want_mask, signature="C14:entry-point:reveal_plate:mask")
+        elif stage == "prepare_retrospective_simulation":
+            tr, te = tmpdir + "/train.h5", tmpdir + "/test.h5"
+            with G.recording(stage, "mask_screen") as calls:
+                try:
+                    G.run_main(stage, ["--data", src, "--training-output", tr, "--test-output", te, "--holdout-fraction", case["fraction"], "--seed", case["seed"]], verbose)
+                except Exception as e:      # noqa: BLE001 -- the stage's own contract (C11 / C13)
+                    res.count("entry-point.prepare.raised." + type(e).__name__)
+                    return
+            for c in calls:
+                filtered = c[1]["screen"] if "screen" in c[1] else c[0][0]
+                # filter -> subset -> to_screen: the materialised rows are rows of the loaded screen, in parent order
+                have, it = row_tuples(filtered), iter(row_tuples(inp))
+                if not all(any(r == x for x in it) for r in have):
+                    res.fail("prepare_retrospective_simulation: the filtered (materialised) screen is not a selection of the loaded screen's rows in parent order",
+                             case, have[:4], row_tuples(inp)[:4], signature="C14:entry-point:prepare:to_screen-rows")
+    finally:
+        shutil.rmtree(tmpdir, ignore_errors=True)
+
+
+def load_case(res, case, queue=None):
+    """item 19, load path: views of a parent that came out of Screen.load_h5 with NaN / +-inf observations"""
+    raw = case["raw"]
+    E = Eval(raw, res, case)
+    n = E.n
+    for tree in (["S", case["mask"]], ["p", 0], ["q", ["S", [True] * n]], ["i", ["S", case["mask"]]], ["u"], ["o"]):
+        try:
+            v, exp = E.ev(tree)
+        except Absent:
+            continue
+        check_to_screen(E, v, res, case)
+    extras(E, raw, res, case, None, None, True, True)
+    E.recheck_all()
+
+
+def entry_and_load_classes(ctx, res, rng):
+    stages = ["extract_screen_metadata", "reveal_plate", "prepare_retrospective_simulation"]
+    for t in range(ctx.scale(9, 90)):
+        stage = stages[t % 3]
+        raw = G.entry_raw(rng, arity=2 if stage == "prepare_retrospective_simulation" else None)
+        case = {"kind": "entry-point", "stage": stage, "raw": raw, "verbose": t % 2 == 0}
+        if stage == "reveal_plate":
+            pl = sorted(set(raw["pnames"]))
+            unobs = [i for i, q in enumerate(pl) if not raw["mask"][raw["pnames"].index(q)]]
+            case["plate_ids"] = sorted(set([0] + rng.sample(unobs, rng.randint(1, len(unobs))))) if t % 2 == 0 else rng.sample(unobs, 1)
+        if stage == "prepare_retrospective_simulation":
+            case["fraction"] = rng.choice([0.1, 0.3, 0.5])
+            case["seed"] = rng.choice([0, 0, 1, 7])
+        res.evaluations += 1
+        res.count("class.entry-point." + stage)
+        if case["verbose"]:
+            res.count("class.verbose-logging")
+        guarded(entry_point_case, res, case)
+    for t in range(ctx.scale(6, 60)):
+        raw = G.entry_raw(rng, nan_obs=True)
+        raw["via_h5"] = "verbose" if t % 2 == 0 else "quiet"
+        case = {"kind": "load-nan-inf", "raw": raw, "mask": gen_mask(rng, len(raw["snames"])), "verbose": t % 2 == 0}
+        res.evaluations += 1
+        res.count("class.load-nan-inf")
+        if case["verbose"]:
+            res.count("class.verbose-logging")
+        guarded(load_case, res, case)
 
 
 
@@ -1046,6 +1200,7 @@ def run(ctx, res):
 
     # first, so that an identity-keyed cache is reported on a case whose replay re-creates the address reuse
     checklist_classes(ctx, res, ctx.subrng("c14", "classes"), queue)
+    entry_and_load_classes(ctx, res, ctx.subrng("c14", "entry"))
     for t in range(n_trees):
         raw = gen_screen(rng, n_max)
         if len(set(raw["pnames"])) >= 2 and rng.random() < 0.4:
@@ -1060,8 +1215,12 @@ def run(ctx, res):
         tree = gen_tree(rng, raw, rng.randint(2, max_depth), sizes_of)
         lseed = rng.randrange(1 << 30)
         case = {"raw": raw, "tree": tree, "lseed": lseed}
+        if t % 6 == 0:
+            case["verbose"] = True              # item 19: the slice that runs under DEBUG logging (same oracles, same model lines)
+            res.count("class.verbose-logging")
         res.evaluations += 1
-        E, v, err = run_tree(raw, tree, res, case, lseed)
+        with G.vctx(case.get("verbose")):
+            E, v, err = run_tree(raw, tree, res, case, lseed)
         res.count("root." + tree[0])
         res.count("ste.parent-" + E.ste_kind)
         res.count("ops.%s" % ("1-2" if n_ops(tree) <= 2 else "3-6" if n_ops(tree) <= 6 else "7+"))
@@ -1111,6 +1270,17 @@ def run(ctx, res):
 
 
 def replay(ctx, case, res):
+    if case.get("kind") == "entry-point":
+        guarded(entry_point_case, res, case)
+        return
+    if case.get("kind") == "load-nan-inf":
+        guarded(load_case, res, case)
+        return
+    with G.vctx(case.get("verbose") and case.get("kind") not in ("temporaries", "instalments", "int-width")):
+        replay_inner(ctx, case, res)
+
+
+def replay_inner(ctx, case, res):
     if case.get("kind") == "select_unique":
         from batchie.common import select_unique_zipped_numpy_arrays
         cols = case["cols"]
